@@ -28,7 +28,7 @@ def judge_prog(prog, res):
         return None  # rejected programs are outside the quantifier
     try:
         ref = progen.interpret(prog)
-    except (progen.Unsupported, RecursionError):
+    except (progen.Unsupported, progen.TooBig, RecursionError):
         return None
     return proglib.compare(ref, prog["final_ty"], res["runs"][0])
 
